@@ -303,6 +303,20 @@ func Main(t *testing.T, p *Property) {
 		o := execRun(t, p, ch, tier, true)
 		res.Runs++
 		accumulate(res, &o)
+		if td := os.Getenv("VERIF_TRACEDIR"); td != "" {
+			_ = os.MkdirAll(td, 0o755)
+			_ = os.WriteFile(filepath.Join(td, fmt.Sprintf("%d.txt", i)), []byte(strings.Join(o.trace, "\n")+"\n"), 0o644)
+		}
+		if dp := os.Getenv("VERIF_DIGESTS"); dp != "" {
+			if df, err := os.OpenFile(dp, os.O_APPEND|os.O_CREATE|os.O_WRONLY, 0o644); err == nil {
+				v := ""
+				if o.viol != nil {
+					v = " VIOL " + o.viol.Class
+				}
+				fmt.Fprintf(df, "%d %016x %d%s\n", i, o.digest, len(o.trace), v)
+				df.Close()
+			}
+		}
 		if o.infra != "" && o.viol == nil {
 			res.Infra = o.infra
 			res.Violations = append(res.Violations, ReplayFile{Property: p.ID, RunSeed: runSeed, Tier: tier, Tape: o.tape, Class: "infra", Message: o.infra, Trace: o.trace})
